@@ -9,7 +9,7 @@ LEAN_MODULES = ["Econf.Props.C05"]
 THEOREMS = ["Econf.C05_step_inert", "Econf.C05_blank_inert", "Econf.C05_lines_inert", "Econf.C05_insert_comments"]
 RULE = ("conventional single-line-value documents x random insertion points x comment-line texts over the printable alphabet with "
         "comment characters, delimiters, quotes and brackets over-represented, with and without indentation, the comment sets {#, ;, #;, default} and longer ones (4, 9, 11 characters with the usual ones last; a character named twice); the file "
-        "is read with and without the inserted lines (a fifth of the documents in python style, through an object created with PYTHON_STYLE=1 and the layered read) and the two results are compared (in a third of the scenarios after an earlier read with other comment characters in the same process); distinct by (document, inserted lines)")
+        "is read with and without the inserted lines (a fifth of the documents in python style, through an object created with PYTHON_STYLE=1 and the layered read) and the two results are compared; plus long files in which small comment blocks add up to 8 KiB ... 140 KiB (1 MiB thorough) (in a third of the scenarios after an earlier read with other comment characters in the same process); distinct by (document, inserted lines)")
 
 NASTY = [b"old=1 # disabled", b"# heading", b" c", b"[section]", b"[broken", b"key value", b"k=v", b'"quoted', b"=", b"]", b"a=b # c ; d",
          b"", b" ", b"\t[x] y", b"#", b";", b"#;#;", b'k="v" # t']
@@ -81,9 +81,46 @@ def make(rng, sid):
     return s
 
 
+def make_bulk(rng, sid, total):
+    """a long file in which the inserted comment lines add up to `total` bytes (each block of them is small)"""
+    delim, comment = rng.choice([b"=", b" =", b":="]), rng.choice([b"#", b";", b"#;"])
+    plain, commented, inserted = [], [], []
+    per = 330
+    n = max(3, total // per)
+    for i in range(n):
+        if i % (n // 3 + 1) == 0:
+            hdr = b"[sec%d]" % (i // (n // 3 + 1))
+            plain.append(hdr); commented.append(hdr)
+        block = []
+        size = 0
+        while size < per:
+            text = rng.choice(NASTY) + b" " + bytes(rng.choice(b"abK01_ =[]\"") for _ in range(rng.randint(10, 60)))
+            ln = rng.choice([b"", b"  ", b"\t"]) + bytes([rng.choice(comment)]) + text
+            block.append(ln); size += len(ln) + 1
+        inserted += block
+        commented += block
+        ent = b"key%d" % i + delim[-1:] + b"value%d" % i
+        plain.append(ent); commented.append(ent)
+    a = b"\n".join(plain) + b"\n"
+    b = b"\n".join(commented) + b"\n"
+    s = Scenario(sid, {"a": a, "b": b, "delim": delim, "comment": comment, "cls": "bulk", "inserted": inserted[:4], "bulk": sum(len(l) + 1 for l in inserted), "python": False})
+    s.file(b"/a.conf", a)
+    s.file(b"/b.conf", b)
+    s.add("RF", 0, h(b"/a.conf"), h(delim), h(comment))
+    s.add("RF", 1, h(b"/b.conf"), h(delim), h(comment))
+    s.add("RAW", 0); s.add("DUMP", 0)
+    s.add("RAW", 1); s.add("DUMP", 1)
+    s.add("FREE", 0); s.add("FREE", 1)
+    return s
+
+
 def scenarios(tier, rng):
     n = 3000 if tier == "quick" else 100000
-    return [make(rng, "c%d" % i) for i in range(n)]
+    out = [make(rng, "c%d" % i) for i in range(n)]
+    # the amount of comment text in one file: small blocks that add up to 8 KiB ... 1 MiB
+    for i, total in enumerate([8192, 65536, 70000, 140000] + ([1 << 20] if tier != "quick" else [])):
+        out.append(make_bulk(rng, "bulk%d" % i, total))
+    return out
 
 
 def oracle(s, lines):
@@ -104,7 +141,7 @@ def oracle(s, lines):
     va, vb = parse_views(lines)[:2]
     if va.groups != vb.groups:
         return "inserting comment lines changed the sections: %r -> %r" % (va.groups, vb.groups)
-    if s.meta.get("python"):
+    if s.meta.get("python") or s.meta.get("bulk"):
         return None     # what a python-style document means is C15's subject; here: the inserted lines changed nothing
     # and both agree with the grammar's expectation
     sections, entries = gen_doc.expected(s.meta["items"])
@@ -124,6 +161,8 @@ def histogram(s, lines):
     if "a" not in s.meta:
         return ["corpus"]
     ks = ["class_" + s.meta["cls"], "comment_set_" + s.meta["comment"].decode()] + (["python_style"] if s.meta.get("python") else [])
+    if s.meta.get("bulk"):
+        return ks + ["inserted_total_%dKiB" % (s.meta["bulk"] // 1024)]
     for l in s.meta["inserted"]:
         ks.append("inserted_indented" if l[:1] in b" \t\x0b\x0c\r" and l[:1] else "inserted_at_col0")
         body = l.lstrip(b" \t\x0b\x0c\r")[1:]
